@@ -292,12 +292,64 @@ def r15_3_one_item_per_line(ctx):
     ctx.require_min("R15.3", 3)
 
 
+def r15_6_recorded_path(ctx):
+    import posixpath
+
+    ctx.rule("R15.6", "the file recorded for a frame names the source file: with relative paths on, joining the compile-time working directory with PyTealFrame.file() and normalising gives the frame's file (files inside the directory, in sub-directories, in sibling directories whose name starts with the directory's name, elsewhere); with relative paths off it is the file name unchanged; a frame without info records the empty string")
+    c = ctx.model.find_class("PyTealFrame", "pyteal.stack_frame")
+    f = q.need(c.methods.get("file"), "PyTealFrame.file vanished")
+    root = c.methods.get("root")
+    ctx.analysed(f.fq)
+    cwds = ["/x/proj", "/", "/x/proj/"]
+    paths = ["/x/proj/a.py", "/x/proj/sub/dir/a.py", "/x/proj_shared/lib.py", "/x/projection.py", "/x/other/a.py", "/a.py", "/x/proj/../proj2/a.py", "/x/proj/proj/a.py", "/y/x/proj/a.py"]
+    for cwd in cwds:
+        norm_cwd = posixpath.normpath(cwd)
+
+        def relpath(p, start=None, norm_cwd=norm_cwd):
+            return posixpath.relpath(p, norm_cwd if start is None else start)
+
+        ospath = Sym("os.path", attrs={"sep": "/"}, methods={"relpath": relpath, "join": posixpath.join, "normpath": posixpath.normpath, "dirname": posixpath.dirname, "basename": posixpath.basename, "isabs": posixpath.isabs, "commonpath": posixpath.commonpath, "commonprefix": posixpath.commonprefix, "abspath": lambda p, norm_cwd=norm_cwd: posixpath.normpath(posixpath.join(norm_cwd, p))})
+        os_sym = Sym("os", attrs={"path": ospath, "sep": "/"}, methods={"getcwd": lambda norm_cwd=norm_cwd: norm_cwd})
+
+        def oracle(e, me, os_sym=os_sym):
+            if u(e) == "os":
+                return os_sym
+            raise Unknown()
+
+        for path in paths:
+            for rel in (True, False):
+                selfs = Sym("frame", attrs={"_file": None, "_root": None, "rel_paths": rel, "frame_info": Sym("info", attrs={"filename": path})})
+                if root is not None:
+                    selfs.methods["root"] = lambda selfs=selfs, oracle=oracle: run_function(root.node, {"self": selfs}, oracle, root.fq)[0]
+                construct = f"PyTealFrame.file[cwd={cwd},file={path},rel_paths={rel}]"
+                try:
+                    val, _ = run_function(f.node, {"self": selfs}, oracle, f.fq)
+                except Raised as r:
+                    ctx.bad("R15.6", construct, f"raises {r.exc_text[:60]}", f.where)
+                    continue
+                if rel:
+                    ok = isinstance(val, str) and posixpath.normpath(posixpath.join(norm_cwd, val)) == posixpath.normpath(path)
+                    why = f"records `{val}`, which from {norm_cwd} names {posixpath.normpath(posixpath.join(norm_cwd, val)) if isinstance(val, str) else '?'}, not {posixpath.normpath(path)}"
+                else:
+                    ok = val == path
+                    why = f"records `{val}` instead of the file name `{path}`"
+                ctx.check(ok, "R15.6", construct, why, f.where, fact={"recorded": val})
+    selfs = Sym("frame", attrs={"_file": None, "_root": None, "rel_paths": True, "frame_info": None})
+    val, _ = run_function(f.node, {"self": selfs}, lambda e, me: (_ for _ in ()).throw(Unknown()), f.fq)
+    ctx.check(val == "", "R15.6", "PyTealFrame.file[no frame info]", f"records {val!r}", f.where, fact={})
+    ctx.require_min("R15.6", 50)
+
+
 def run(ctx):
     r15_4_vlq(ctx)
     r15_5_r3_json(ctx)
     r15_1_non_interference(ctx)
     r15_2_validators(ctx)
     r15_3_one_item_per_line(ctx)
+    r15_6_recorded_path(ctx)
+    from rules import c12 as _c12
+
+    _c12.r12_1_sites(ctx)  # ops rewritten by the constants pass stay attributed to their own expression, one op object per site (shared with C12)
     return (
         "Abstract evaluation of the base64-VLQ codec and of R3SourceMap.to_json/from_json against an independent Revision-3 encoder/decoder (several sources in non-alphabetical "
         "first-use order, large deltas, empty lines); closed list of branch conditions on source-map state outside the source-map modules (non-interference); must-pass-through of "
